@@ -35,3 +35,7 @@ Lemma map_filter_ext {A B} (f g : A -> B) (p q : A -> bool) l :
   (forall a, f a = g a) -> (forall a, p a = q a) -> map f (filter p l) = map g (filter q l).
 Proof. intros Hf Hp. rewrite (filter_ext _ _ Hp). apply map_ext. exact Hf. Qed.
 
+
+Lemma map_filter_ext_in {A B} (f g : A -> B) (p q : A -> bool) l :
+  (forall a, f a = g a) -> (forall a, In a l -> p a = q a) -> map f (filter p l) = map g (filter q l).
+Proof. intros Hf Hp. rewrite (filter_ext_in _ _ _ Hp). apply map_ext. exact Hf. Qed.
